@@ -661,6 +661,19 @@ def oracle(env):
                                 "same_construction_on_matrices": [str(complex(z)) for z in want],
                             }
                             break
+                    # the adjoint closure of the derived operator is the conjugate transpose
+                    if "value" not in fails and kind_uniform(e) and hasattr(o, "adj"):
+                        for i in range(m):
+                            yv = np.eye(m, dtype=np.complex128)[i]
+                            try:
+                                z = env.flat(o.adj(env.to_array(yv, info["out_shape"], info["out_dtype"])))
+                            except Exception:  # noqa: BLE001
+                                break
+                            want = D.conj().T @ yv
+                            if not vec_close(z, want, tol, max(4, D.size)):
+                                fails["adjoint_value"] = {"y": [str(complex(v)) for v in yv], "adj_returned": [str(complex(v)) for v in z],
+                                                          "conjugate_transpose_of_construction": [str(complex(v)) for v in want]}
+                                break
         return fails or None
 
     return run
